@@ -247,7 +247,7 @@ def worker(job):
 def main(chk, tier, seed):
     chk.rule = RULE
     chk.assumptions = ["grid sizes below 3 are rejected by the ising command line; generate_ising is still run on them and reported under the :size-2-periodic-grid keys"]
-    n = 1800 if tier == "quick" else 20000
+    n = 1800 if tier == "quick" else 80000
     common.run_chunked(chk, "c30", n, nchunks=16 if tier == "quick" else 64, timeout=3000)
     chk.inconclusive_if(len(chk.extra.get("generators", {})) < 3, "not all three generators exercised")
 
